@@ -822,9 +822,27 @@ def fam_fieldcurv(ctx, rec, c):
             # by tol / (2 delta |u'|), which shows as isolated spikes where the two rays took different numbers of iterations
             if it_allow:
                 scale = scale + it_allow / 5e-6
-            rec.close(f'field-curvature-{name}', got, want, 5e-6, scale=scale,
-                      msg=f'{name} focus shift at wavelength {w} differs from Coddington\'s equations along the chief ray',
-                      detail=dict(f=f, Hy=Hy))
+            # field points whose chief ray meets a conic surface (k <= -1) along its asymptotic direction: the quadratic
+            # for the intersection loses its leading coefficient a = L^2 + M^2 + (1 + k) N^2 there and the textbook formula the
+            # library uses cancels (C02 finding conic-intersection-cancellation); the 1e-9-size error of one ray of the pair
+            # is amplified by 1/(2e-5) in the crossing point.  Those points are judged under that mechanism's key.
+            amin = np.full(npts, np.inf)
+            for j_, s_ in enumerate(surfs[:-1], start=1):
+                if s_.get('type', 'standard') == 'standard' and s_.get('radius', 'inf') != 'inf' and float(s_.get('conic') or 0.0) <= -1.0 \
+                        and not any(s_.get(q_) for q_ in ('rx', 'ry', 'rz', 'dx', 'dy')):
+                    Din = D[j_ - 1]
+                    amin = np.fmin(amin, np.abs(Din[:, 0] ** 2 + Din[:, 1] ** 2 + (1.0 + float(s_['conic'])) * Din[:, 2] ** 2))
+            canc = amin < 1e-3
+            if canc.any():
+                rec.cls('fieldcurv-chief-ray-along-a-conic-asymptote')
+                rec.close(f'field-curvature-{name}', got[canc], want[canc], 5e-6, scale=scale[canc],
+                          key=f'field-curvature-{name}:conic-intersection-cancellation',
+                          msg=f'{name} focus shift at wavelength {w}: field points whose chief ray runs along the asymptotic '
+                              f'direction of a conic surface (min |a| = {float(np.min(amin)):.2e})', detail=dict(f=f, Hy=Hy[canc]))
+            if (~canc).any():
+                rec.close(f'field-curvature-{name}', got[~canc], want[~canc], 5e-6, scale=scale[~canc],
+                          msg=f'{name} focus shift at wavelength {w} differs from Coddington\'s equations along the chief ray',
+                          detail=dict(f=f, Hy=Hy[~canc]))
         nfin += int(np.sum(np.isfinite(T)) + np.sum(np.isfinite(S)))
     return nfin, {}
 
